@@ -627,6 +627,71 @@ func scanThresh(c *core.Ctx) []ob {
 			}
 		}
 	}
+	// prime generation: primes drawn above 2^bits have bits+1 bits, so for the largest accepted size request the
+	// generator must only go downstream. Every upstream/alternating draw in library code must sit in the else-branch
+	// of a test `size == 61` whose then-branch draws downstream.
+	c.FuncDecls(func(pk2 *packages.Package, file *ast.File, fd *ast.FuncDecl) {
+		if inExamples(pk2) || fileIsTestSupport(c.Program, fd.Pos()) || strings.HasSuffix(c.RelFile(fd.Pos()), "ring/primes.go") {
+			return
+		}
+		info2 := pk2.TypesInfo
+		pm := parentMap(fd)
+		ast.Inspect(fd.Body, func(nd ast.Node) bool {
+			call, ok := nd.(*ast.CallExpr)
+			if !ok {
+				return true
+			}
+			f := calleeFunc(info2, call)
+			if f == nil || !(strings.HasPrefix(f.Name(), "NextAlternatingPrime") || strings.HasPrefix(f.Name(), "NextUpstreamPrime")) {
+				return true
+			}
+			if rn := namedOf(f.Type().(*types.Signature).Recv().Type()); rn == nil || rn.Obj().Name() != "NTTFriendlyPrimesGenerator" {
+				return true
+			}
+			n++
+			key := fmt.Sprintf("THRESH:%s#%s", core.FuncKey(pk2, fd), f.Name())
+			guarded := false
+			var child ast.Node = call
+			for p := pm[child]; p != nil; child, p = p, pm[p] {
+				is, ok := p.(*ast.IfStmt)
+				if !ok || is.Else != child {
+					continue
+				}
+				// condition: X == 61
+				eq := false
+				ast.Inspect(is.Cond, func(x ast.Node) bool {
+					if be, ok := x.(*ast.BinaryExpr); ok && be.Op == token.EQL {
+						for _, side := range []ast.Expr{be.X, be.Y} {
+							if tv, ok := info2.Types[side]; ok && tv.Value != nil {
+								if v, ok := constant.Int64Val(constant.ToInt(tv.Value)); ok && v == maxSupportedBits {
+									eq = true
+								}
+							}
+						}
+					}
+					return true
+				})
+				down := false
+				ast.Inspect(is.Body, func(x ast.Node) bool {
+					if c2, ok := x.(*ast.CallExpr); ok {
+						if f2 := calleeFunc(info2, c2); f2 != nil && strings.HasPrefix(f2.Name(), "NextDownstreamPrime") {
+							down = true
+						}
+					}
+					return true
+				})
+				if eq && down {
+					guarded = true
+				}
+			}
+			if guarded {
+				out = append(out, okOb("THRESH", key, c.Rel(call.Pos()), "upstream/alternating draw only for sizes other than 61; 61-bit requests are drawn downstream", true))
+			} else {
+				out = append(out, violOb("THRESH", key, c.Rel(call.Pos()), fmt.Sprintf("%s draws primes with %s without the `size == %d -> downstream` guard used by rlwe.GenModuli: a %d-bit request yields primes above 2^%d, i.e. %d-bit moduli, more than the arithmetic supports", core.FuncKey(pk2, fd), f.Name(), maxSupportedBits, maxSupportedBits, maxSupportedBits, maxSupportedBits+1)))
+			}
+			return true
+		})
+	})
 	c.Stats["thresholds"] = n
 	return out
 }
